@@ -48,7 +48,8 @@ func (c16) ID() string { return "C16" }
 func (c16) Rule() string {
 	return "the bytes returned by every encoder are walked by the independent strict marker walkers (T.81/T.87: internal/ref/jpegwalk.go; 15444-1: j2kwalk.go; Annex G: rle.go): start/end markers, every segment length consistent with its content and the next marker, referenced tables defined, no unescaped marker code in entropy-coded data (T.81: FF followed by 00/RSTn only; T.87: byte after FF has MSB 0; JPEG 2000: no FF followed by >8F inside tile-part bodies), Psot chain ends exactly at EOC, TPsot/TNsot consistent, TLM entries equal the (Isot,Psot) sequence, nothing after the end marker; header fields equal the encoder's arguments (width, height, components, precision, signedness, NEAR, ILV, predictor in Ss, transform/progression/layers/levels/code-block exponents in COD, Rsiz/CAP for HT); lossless Huffman scans are consumed exactly by the reference decoder with 1-bit padding. " +
 		"cases: all encoders x precision/components/selectors on noise (0xFF-rich), sizes needing both bytes of a 16-bit field (255,256,257,65535x1,1x65535), JPEG 2000 layers/progressions/precincts and tile grids up to 8x8. non-trivial: a stream was returned and walked; distinct = distinct descriptor" +
-		" (roi) RGN signalling: ROIParams / ROIConfig on all or a subset of the components x single-tile, tiled, layered and rate-targeted encodes; (htblocks) HT streams of 256x256 flatnoise images with 16x16 code-blocks (MagSgn streams of every length next to MEL streams that open with 1-bits) and of other sparse classes with 4x4..8x8 code-blocks"
+		" (roi) RGN signalling: ROIParams / ROIConfig on all or a subset of the components x single-tile, tiled, layered and rate-targeted encodes; (htblocks) HT streams of 256x256 flatnoise images with 16x16 code-blocks (MagSgn streams of every length next to MEL streams that open with 1-bits) and of other sparse classes with 4x4..8x8 code-blocks" +
+		" (ffdense) 16-bit lossless / SV1 scans of 50 KB and more with a stuffed 0xFF every third byte at a drifting phase"
 }
 func (c16) Assumptions() []string {
 	return []string{"the three walkers are correct readings of T.81 B / T.87 C / 15444-1 A and PS3.5 Annex G"}
@@ -182,6 +183,20 @@ func (c16) Build(tier string, seed uint64) []any {
 			_ = i
 			add(&c16Case{Gen: "frames", Enc: "codec" + ts, W: 8 + r.Intn(60), H: 8 + r.Intn(60), C: spp, P: bs, BA: ba, Sel: 3 + r.Intn(3), Class: "noise", CSeed: r.U64()})
 		}
+	}
+	// (ffdense) Huffman-coded scans of 50 KB and more with a stuffed 0xFF every third byte at a
+	// drifting phase (a 0xFF on every kind of buffer boundary of the byte writer)
+	nFF := 12
+	if th {
+		nFF = 120
+	}
+	for i := 0; i < nFF; i++ {
+		r := gen.Sub(seed, "C16", "ffdense", i)
+		c := &c16Case{Gen: "ffdense", Enc: gen.Pick(r, "lossless", "lossless", "sv1"), Class: "ffdense", CSeed: r.U64(), W: 120 + r.Intn(140), H: 120 + r.Intn(140), C: gen.Pick(r, 1, 1, 3), P: 16}
+		if c.Enc == "lossless" {
+			c.Sel = gen.Pick(r, 1, 1, 2, 7, 0)
+		}
+		add(c)
 	}
 	// (roi) region-of-interest signalling (RGN segments in the main header or in every tile-part
 	// header) on single-tile, tiled, layered and rate-targeted encodes; regions on all or on a
